@@ -35,9 +35,12 @@ type countingLogger struct {
 	bytes int
 }
 
-func (l *countingLogger) Print(a ...interface{})            { l.calls++; l.bytes += len(fmt.Sprint(a...)) }
-func (l *countingLogger) Printf(f string, a ...interface{}) { l.calls++; l.bytes += len(fmt.Sprintf(f, a...)) }
-func (l *countingLogger) Println(a ...interface{})          { l.calls++; l.bytes += len(fmt.Sprintln(a...)) }
+func (l *countingLogger) Print(a ...interface{}) { l.calls++; l.bytes += len(fmt.Sprint(a...)) }
+func (l *countingLogger) Printf(f string, a ...interface{}) {
+	l.calls++
+	l.bytes += len(fmt.Sprintf(f, a...))
+}
+func (l *countingLogger) Println(a ...interface{}) { l.calls++; l.bytes += len(fmt.Sprintln(a...)) }
 
 func contentKey(ct *lib.Content) string {
 	if ct == nil {
